@@ -31,7 +31,7 @@ import core
 READY = True
 MANIFEST = dict(
     technique='Lean 4 theorems over a byte-level model of the scope codec (percent-encoding, UTF-8 decoding with replacement, urlsplit, parse_qsl transcribed and proved to round-trip); differential correspondence of every model function against the real code',
-    text='Theorems (Properties/C16.lean): scope_roundtrip (from_scope_string(scope_string(loc)) = loc for every non-empty root and every present/absent pattern of arbitrary UTF-8 values, empty string included), published_roundtrip / published_inside (the scope mk_scopes publishes is inside exactly the locations with the default root that agree on all their specified elements; corollaries: inside itself, inside every enclosing location, outside every location differing in a specified element), filter_total / filter_services_total (for every scope string and service list filter_services_inside returns exactly the services with ANY scope inside, no exception class escapes), published_after_update / published_after_history / inside_after_history (after any history of location updates of one provider the published scope is that of the last accepted location), search_in_location_exact / search_finds_published / search_excludes_elsewhere (WSDiscovery.search_sdc_device_services_in_location = SDC-typed discovered services filtered by location containment, so a device is found by exactly the searches for enclosing locations). The model is compared with the implementation on generated locations (all 64 presence patterns, reserved/non-ASCII/long values) and on foreign scope strings (any scheme, netloc, 0-6 segments, malformed queries).',
+    text='Theorems (Properties/C16.lean): scope_roundtrip (from_scope_string(scope_string(loc)) = loc for every non-empty root and every present/absent pattern of arbitrary UTF-8 values, empty string included), published_roundtrip / published_inside (the scope mk_scopes publishes is inside exactly the locations with the default root that agree on all their specified elements; corollaries: inside itself (published_inside_self_partial: for the default root; published_inside_self_full_fails is the witness of the known finding with a non-default, deprecated root), inside every enclosing location, outside every location differing in a specified element), filter_total / filter_services_total (for every scope string and service list filter_services_inside returns exactly the services with ANY scope inside, no exception class escapes), published_after_update / published_after_history / inside_after_history (after any history of location updates of one provider the published scope is that of the last accepted location), search_in_location_exact / search_finds_published / search_excludes_elsewhere (WSDiscovery.search_sdc_device_services_in_location = SDC-typed discovered services filtered by location containment, so a device is found by exactly the searches for enclosing locations). The model is compared with the implementation on generated locations (all 64 presence patterns, reserved/non-ASCII/long values) and on foreign scope strings (any scheme, netloc, 0-6 segments, malformed queries).',
     note='Trusted: Lean kernel; harness and generators; the ipaddress/NFKC checks inside urlsplit are a parameter of the model (all theorems hold for every outcome), CPython str.encode/UTF-8 decoder is modelled and under correspondence. Domain: strings are sequences of Unicode scalar values (lone surrogates cannot be encoded, quote raises); root must be non-empty (root is deprecated; an empty root cannot be expressed in the URL path); the published scope always carries the fixed root sdc.ctxt.loc.detail.',
     ref='5 C16')
 DRIVERS = ['drv_c16']
@@ -183,6 +183,18 @@ def impl_filter(t, svcs) -> str:
 
 
 # ---------------------------------------------------------------------------------------------- location histories
+def _loc_for(backend, kind, t):
+    """`…-same`: the application keeps ONE SdcLocation object, logs it (str() reads scope_string) and edits it in place"""
+    if not kind.endswith('-same'):
+        return mk_loc(t)
+    if getattr(backend, 'shared', None) is None:
+        backend.shared = mk_loc(t)
+    str(backend.shared)
+    set_to(backend.shared, t)
+    str(backend.shared)
+    return backend.shared
+
+
 class ContainerBackend:
     """one LocationContextStateContainer object that is updated again and again (no MDIB, no transaction)"""
     name = 'container'
@@ -190,9 +202,9 @@ class ContainerBackend:
     def __init__(self):
         self.state = statecontainers.LocationContextStateContainer(mock.MagicMock(Handle='d', DescriptorVersion=0), 'h')
 
-    def step(self, kind, t) -> str:  # noqa: ARG002
+    def step(self, kind, t) -> str:
         try:
-            self.state.update_from_sdc_location(mk_loc(t))
+            self.state.update_from_sdc_location(_loc_for(self, kind, t))
         except Exception as ex:  # noqa: BLE001
             return _exc(ex)
         return 'ok'
@@ -218,12 +230,13 @@ class MdibBackend:
 
     def step(self, kind, t) -> str:
         try:
-            if kind == 'set' or not self._associated():
-                self.mdib.xtra.set_location(mk_loc(t))
+            loc = _loc_for(self, kind, t)
+            if kind.startswith('set') or not self._associated():
+                self.mdib.xtra.set_location(loc)
             else:
                 handle = self._associated()[0].Handle
                 with self.mdib.context_state_transaction() as mgr:
-                    mgr.get_context_state(handle).update_from_sdc_location(mk_loc(t))
+                    mgr.get_context_state(handle).update_from_sdc_location(loc)
         except Exception as ex:  # noqa: BLE001
             return _exc(ex)
         return 'ok'
@@ -263,6 +276,12 @@ def run_history(ctx, backend_cls, steps, rng, emit=None):
             scopes, pub = None, _exc(ex)
         if emit:
             emit('lspub', pub, {**case, 'at': i})
+        if kind.endswith('-same') and res == 'ok':
+            shared_scope, fresh_scope = backend.shared.scope_string, mk_loc(t).scope_string
+            if shared_scope != fresh_scope:
+                ctx.fail('scope-string:stale-after-change', f'the application\'s location object now is {t!r} but its scope_string is {shared_scope!r}; '
+                         f'a new object with these values gives {fresh_scope!r}', {**case, 'at': i})
+                return
         if current is None or half_updated:
             continue
         if scopes is None:
@@ -295,7 +314,8 @@ def rand_history(rng, backend_name):
     cur = list(rand_loc(rng, mask=rng.choice([63, 63, rng.randrange(1, 64)]), root=DEFAULT_ROOT))
     if not any(cur[1:]):
         cur[1] = 'HOSP1'
-    steps = [('set' if backend_name == 'mdib' else 'update', tuple(cur))]
+    same = rng.random() < 0.4   # the application reuses one SdcLocation object and edits it in place
+    steps = [(('set' if backend_name == 'mdib' else 'update') + ('-same' if same else ''), tuple(cur))]
     for _ in range(rng.randrange(1, 6)):
         k = rng.random()
         nxt = list(cur)
@@ -313,7 +333,8 @@ def rand_history(rng, backend_name):
             nxt = [DEFAULT_ROOT] + [rng.choice([None, '']) for _ in range(6)]
         else:             # same again
             pass
-        steps.append((rng.choice(['set', 'tx', 'tx']) if backend_name == 'mdib' else 'update', tuple(nxt)))
+        kind = rng.choice(['set', 'tx', 'tx']) if backend_name == 'mdib' else 'update'
+        steps.append((kind + ('-same' if same else ''), tuple(nxt)))
         if any(nxt[1:]):
             cur = nxt
     return steps
@@ -369,6 +390,39 @@ def stateful_parse(ctx, s, mutation_of, emit=None, origin=None):
     if emit and encodable(s):
         emit(f'parse {split_flag(s)} {hx(s)}', second, case)
     ctx.count('reparse:' + second.split(' ')[0] + (' ' + second.split(' ')[1] if second.startswith('err') else ''))
+
+
+def set_to(loc_obj, t):
+    """change an existing SdcLocation object in place so that it describes location t (root through its setter)"""
+    if loc_obj._root != t[0]:
+        loc_obj.root = t[0]
+    for a, v in zip(ELEMS, t[1:]):
+        setattr(loc_obj, a, v)
+
+
+def stateful_scope_string(ctx, t_first, t_then, emit=None):
+    """ONE SdcLocation object: read scope_string (also via str()), change the object, read again: the second string is the
+    scope of the CURRENT values (what a fresh object with these values gives, what the model gives) and parses back to them"""
+    case = {'op': 'rescope', 'first': list(t_first), 'then': list(t_then)}
+    try:
+        loc = mk_loc(t_first)
+        s1 = loc.scope_string
+        str(loc)
+        set_to(loc, t_then)
+        s2 = loc.scope_string
+        fresh = mk_loc(t_then).scope_string
+        back = loc_tuple(SdcLocation.from_scope_string(s2)) if t_then[0] != '' else None
+    except Exception as ex:  # noqa: BLE001
+        ctx.fail('scope-string:raises', f'{ex!r}', case)
+        return
+    if s2 != fresh:
+        ctx.fail('scope-string:stale-after-change', f'location object changed from {t_first!r} to {t_then!r}: scope_string still {s2!r} '
+                 f'(first read {s1!r}), a new object with the same values gives {fresh!r}', case)
+    elif back is not None and back != tuple(t_then):
+        ctx.fail('roundtrip:' + classify_roundtrip(t_then, back), f'{t_then!r} -> {s2!r} -> {back!r}', case)
+    if emit:
+        emit('scope ' + show_loc(t_then), 'ok ' + hx(s2), case)
+    ctx.count('rescope:' + ('changed' if tuple(t_first) != tuple(t_then) else 'same'))
 
 
 def stateful_filter(ctx, probe, scopes, expected, mutation_towards, rng, emit=None):
@@ -649,6 +703,16 @@ def oracle_published(ctx, t, rng, all_masks):
         sources.append(('published', pub, DEFAULT_ROOT))
     if t[0] != '':
         sources.append(('scope_string', mk_loc(t).scope_string, t[0]))
+    if pub is not None:
+        # the statement, literally: the location itself (with the root it has) recognises the scope published for it
+        try:
+            own = mk_loc(t)._scope_string_matches(pub)
+        except Exception as ex:  # noqa: BLE001
+            own = None
+            ctx.fail('published-inside-raises', f'{ex!r}', case)
+        if own is False:
+            ctx.fail('published-not-inside-own-location:' + ('non-default-root' if t[0] != DEFAULT_ROOT else 'default-root'),
+                     f'SdcLocation {t!r} publishes {pub!r}, which {t!r} does not recognise as inside itself', case)
     masks = range(64) if all_masks else sorted({0, 63, rng.randrange(64), rng.randrange(64)})
     for name, scope, root in sources:
         for mask in masks:
@@ -745,6 +809,8 @@ def run_case_oracle(ctx, case, rng):
         oracle_filter_expected(ctx, tuple(case['self']), case['services'], case['expected'])
     elif case['op'] == 'filter':
         oracle_filter(ctx, tuple(case['self']), case['services'])
+    elif case['op'] == 'rescope':
+        stateful_scope_string(ctx, tuple(case['first']), tuple(case['then']))
     elif case['op'] == 'reparse':
         stateful_parse(ctx, case['scope'], lambda obj: case.get('mutation') or rand_mutation(rng, obj))
     elif case['op'] == 'refilter':
@@ -963,6 +1029,12 @@ def run(ctx):
         t = rand_loc(rng, root=DEFAULT_ROOT if rng.random() < 0.6 else None)
         if t[0] == '':
             continue
+        # write side: one location object, read - change - read
+        then = list(t)
+        for j in range(7):
+            if rng.random() < 0.35:
+                then[j] = (rand_string(rng) or 'r') if j == 0 else rng.choice([None, rand_string(rng), (t[j] or '') + 'x'])
+        stateful_scope_string(ctx, t, tuple(then), emit2)
         k = rng.random()
         origin = None
         if k < 0.45:
@@ -1070,6 +1142,7 @@ def search(ctx):
         run_history(ctx, cls, rand_history(rng, cls.name), rng)
         if t[0] != '' and encodable(*t):
             stateful_parse(ctx, mk_loc(t).scope_string, lambda obj: rand_mutation(rng, obj), None, t)
+            stateful_scope_string(ctx, t, rand_loc(rng, root=t[0]))
         if ctx.failures:
             return
 
